@@ -290,6 +290,7 @@ func c1MinimiseProg(p c1prog, want string, evals int, pref []c1arr) (c1prog, c1f
 		return p, c1fail{}, false
 	}
 	orig := best
+	origShapes := c1Shapes(p, nil)
 	for changed := true; changed && left > 0; {
 		changed = false
 		for n := 0; left > 0; n++ {
@@ -302,6 +303,15 @@ func c1MinimiseProg(p c1prog, want string, evals int, pref []c1arr) (c1prog, c1f
 			}
 			q := p
 			q.src = cand
+			newShape := false
+			for sh := range c1Shapes(q, nil) {
+				if !origShapes[sh] {
+					newShape = true
+				}
+			}
+			if newShape {
+				continue
+			}
 			if f2, ok := c1failingArrangement(q, want, 12, 1, pref, false, &orig, &left); ok {
 				p, best = q, f2
 				changed = true
